@@ -6,7 +6,7 @@ import re
 import vlib
 from vlib import vbytes, parse_val
 from props import printers_lib as pl
-from props.printers_lib import mstd, mjson, as_bytes
+from props.printers_lib import mstd, mjson, msum, as_bytes
 
 NEED_RG = True
 MANIFEST = dict(
@@ -93,9 +93,12 @@ def gen_case(rng):
                       sc=rng.choice([None, b"--"]), sm=rng.choice([b":", b"|"]), sx=rng.choice([b"-", b"+"]),
                       pt=rng.choice([None, None, 0]), only=rng.random() < 0.15)),
         ("json_always", mjson(always=1, mx=rng.choice([None, None, 1, 2]))),
+        ("count", msum(0, ez=0)), ("files", msum(2, pt=rng.choice([None, 0]))),
     ]
+    # a share of the cases is printed a second time through a writer that accepts at most `chunk` bytes per write call
+    chunk = rng.choice([1, 2, 3, 4, 5, 6, 7, 16, 100, 1024]) if rng.random() < 0.4 else 0
     return dict(pattern=pat, flags=fl, files=files, modes=[m for _, m in named], names=[n for n, _ in named], mx=None,
-                relations=True)
+                relations=True, chunk=chunk)
 
 
 # ----------------------------------------------------------------------------- the oracle
@@ -450,6 +453,20 @@ def run_batch(ctx, cases, cli_every):
         if any(d and not d.endswith(b"\n") for _, d in c["files"]):
             feat["no_final_newline"] = feat.get("no_final_newline", 0) + 1
         outs["_multi"] = r[4]
+        # every io::Write the printers are given must receive the same bytes: short writes lose nothing
+        if c.get("chunk"):
+            feat["short_writer"] = feat.get("short_writer", 0) + 1
+            for j, sres in enumerate(r[7]):
+                if sres != 1:
+                    got = sres[1] if isinstance(sres, list) and len(sres) > 1 else None
+                    ctx.violation("library: a writer accepting at most %d bytes per write call received different output "
+                                  "than an unlimited writer (mode %s): printed bytes are lost or changed"
+                                  % (c["chunk"], c["names"][j]),
+                                  dict(kind="oracle", where="short-writer", pattern=c["pattern"], flags=c["flags"],
+                                       chunk=c["chunk"], mode=c["modes"][j],
+                                       files=[(repr(p), repr(d)) for p, d in c["files"]],
+                                       unlimited=repr(real[j][0])[:1500], short=repr(got)[:1500],
+                                       case=pl.case_val(c), c=pl.jsonable(c)))
         check_case_oracles(ctx, c, outs, "library")
         if nontrivial:
             ctx.sample(dict(pattern=c["pattern"], flags={k2: v2 for k2, v2 in c["flags"].items() if v2},
@@ -468,7 +485,8 @@ def corpus():
                  ("vim", mstd(pm=1, pm1=1, col=1, sc=b"--", ss=b"--" if ctx_on else None)),
                  ("json", mjson()), ("heading", mstd(heading=1, ss=b"", col=1)), ("null", mstd(pt=0, bo=1))]
         return dict(pattern=pat, flags=fl, files=[(NAMES[i], d) for i, d in enumerate(files)],
-                    modes=[m for _, m in named], names=[n for n, _ in named], mx=None, relations=True)
+                    modes=[m for _, m in named] + [msum(0, ez=0), msum(2)], names=[n for n, _ in named] + ["count", "files"],
+                    mx=None, relations=True, chunk=1 + (len(pat) + len(files[0])) % 7)
     return [
         mk("a", L, [b"xa\nb\nxxa a\n", b"a"]),
         mk("b", dict(L, after=1, before=1), [b"a\nb\nc\nd\ne\nb\n"]),
@@ -489,6 +507,41 @@ def corpus():
     ]
 
 
+def directed_line_buffered(ctx):
+    """rg --line-buffered --null-data: stdout is a LineWriter, which flushes up to the last \\n of a write and may
+    accept only part of the rest; records with an embedded \\n followed by more than its buffer must arrive whole"""
+    import os
+    import tempfile
+    recs = [b"foo head\n" + b"x" * 5000, b"nothing here", b"second foo", b"a\nb foo\n" + b"y" * 3000 + b"\n tail"]
+    data = b"".join(r + b"\0" for r in recs)
+    d = tempfile.mkdtemp(prefix="lb", dir=vlib.CACHE)
+    try:
+        f = os.path.join(d, "in.bin")
+        open(f, "wb").write(data)
+        want = b"".join(r + b"\0" for r in recs if b"foo" in r)
+        want_nb = b""
+        off = 0
+        for i, r in enumerate(recs):
+            if b"foo" in r:
+                want_nb += b"%d:%d:" % (i + 1, off) + r + b"\0"
+            off += len(r) + 1
+        for mode in ("--line-buffered", "--block-buffered"):
+            for extra, exp in ((["-N"], want), (["-n", "-b"], want_nb)):
+                rc, out, err = pl.rg([mode, "--null-data", "-a"] + extra + ["foo", "in.bin"], d)
+                ctx.cov["cli_cases"] = ctx.cov.get("cli_cases", 0) + 1
+                if out != exp:
+                    ctx.violation("cli: rg %s --null-data %s: the printed records are not byte-for-byte the input's records "
+                                  "(%d bytes printed, %d expected)" % (mode, " ".join(extra), len(out), len(exp)),
+                                  dict(kind="cli-directed", args=[mode, "--null-data", "-a"] + extra + ["foo"],
+                                       input_records=[repr(r[:40]) + ("... (%d bytes)" % len(r)) for r in recs],
+                                       first_difference=next((i for i in range(min(len(out), len(exp))) if out[i] != exp[i]),
+                                                             min(len(out), len(exp)))))
+    finally:
+        for n in os.listdir(d):
+            os.unlink(os.path.join(d, n))
+        os.rmdir(d)
+
+
 def run(ctx):
     rng = ctx.rng
     ctx.cov["rule"] = ("a case = Python-compatible pattern x flags (-n -U --crlf -v -i -A/-B --passthru) x 1-3 files (incl. "
@@ -496,6 +549,7 @@ def run(ctx):
                        "--column; --vimgrep; --json; random heading/--null/separators/-o; --json always-begin-end with -m); "
                        "non-trivial = some configuration printed something; distinct by case text")
     run_batch(ctx, corpus(), cli_every=1)
+    directed_line_buffered(ctx)
     n = ctx.count(800)
     run_batch(ctx, [gen_case(rng) for _ in range(n)], cli_every=max(1, n // ctx.count(80)))
     # Data::from_bytes / base64 / DecimalFormatter: model = code = independent oracle
@@ -515,5 +569,7 @@ def replay(ctx, data):
     if r.get("kind") in (1002, 1003):
         from props import C10
         return C10.replay(ctx, data)
+    if r.get("kind") == "cli-directed":
+        return directed_line_buffered(ctx)
     if "c" in r:
         run_batch(ctx, [pl.from_jsonable(r["c"])], cli_every=1 if r.get("kind") == "cli" else 0)
